@@ -290,6 +290,12 @@ func (hs *serverHandshakeStateGM) checkForResumption() bool {
 	if sessionHasClientCerts && c.config.ClientAuth == NoClientCert {
 		return false
 	}
+	// The certificates in the ticket were accepted under the policy in force when it was
+	// issued. If they do not satisfy the current policy, fall back to a full handshake
+	// instead of failing the connection while resuming.
+	if sessionHasClientCerts && !c.sessionClientCertsAcceptable(hs.sessionState.certificates) {
+		return false
+	}
 
 	return true
 }
